@@ -28,7 +28,7 @@ CLAIMED = {
          "A scripted peer releases chunk i+1 only once the reader has drained chunk i and the simulation is idle, so the executed partition is exactly the planned one. Includes data in the same segment as the end of the handshake. Receiving kinds PULL, DEALER, SUB, ROUTER, XPUB, REP, REQ.",
          "Thorough tier enumerates 3 x 2^15 partitions completely; longer streams are sampled.", "5/C02"),
  "C03": ("exploration", "deterministic simulation with hostile-peer fault injection: structure-aware attack catalogue, exhaustive short strings over a reduced alphabet and random mutations at every handshake stage for every socket type; oracles: panic capture in every task and API call, worker-process survival (stack overflow/abort seen as signals), counting allocator, healthy second connection keeps working",
-         "24 attacks x 3 stages x 9 socket types (undisturbed, then under drawn transport/schedule), all 19607 strings <= 5 over {00,01,02,04,06,05,ff} after greeting and after handshake (thorough), random mutations of valid streams. Largest single allocation after the first hostile byte must stay <= 256 KiB + 64 x bytes sent.",
+         "31 attacks (incl. huge declared frames of which up to 1 MiB is really delivered) x 3 stages x 9 socket types (undisturbed, then under drawn transport/schedule), all 19607 strings <= 5 over {00,01,02,04,06,05,ff} after greeting and after handshake (thorough), random mutations of valid streams. Largest single allocation after the first hostile byte must stay <= 256 KiB + 64 x bytes sent.",
          "Stack clause depends on documented parameters: 2 MiB run-thread stack, library built unoptimised. Allocation failure is not injected; request sizes are judged.", "5/C03, 3.10"),
  "C04": ("fault_enumeration", "deterministic simulation: full configuration grid of scripted handshakes (226800 cells) run through real accept/connect paths under seeded segmentation, compared with an independent admission predicate; plus enumeration of the 144 compatibility queries",
          "Grid = local type (9) x peer Socket-Type (12 names, unknown, missing) x version (5) x mechanism (4) x signature (3) x identity (5) x first item (3) x side (2). Observables: application message exchanged or not, monitor Accepted/AcceptFailed, connect() result, connection closed by the socket.",
